@@ -3,9 +3,10 @@ import ast
 
 from ..astutil import dotted, method_call
 from ..cfg import cfg_of, fact_key, implied, nonempty_keys, norm, walk_own
+from ..dataflow import mentions
 from ..consteval import resolve_class, Scope
 from ..locks import regions
-from ..flow import unchanged_param
+from ..flow import new_state_locals, unchanged_param
 from ..mutate import B, M
 
 PROP = 'C10'
@@ -200,6 +201,10 @@ def check(ctx):
     ctx.inst('R3', ca, 'only-the-longest-match-is-removed', not pops and len(dels) == 1,
              'an incoming packet releases exactly one entry, the longest matching pattern found by comparing all candidates; a short cut that pops another key '
              '(a remembered length, the first match) cancels the wrong request: %s' % (pops or 'none'))
+    # guards phrased in a new state variable of the function (a remembered length beside the remembered match ..): no verdict
+    shadow = new_state_locals(ca)
+    sk = [k for k in ga.fact_keys_at(dels[0]) if any(mentions(k[0], v_) for v_ in shadow)]
+    ctx.need(not sk or bool(nonempty_keys(lm, True) & set(ga.fact_keys_at(dels[0]))), '_check_for_answers: the removal is guarded through new state %s (%s)' % (sorted(shadow), sk))
     ctx.inst('R3', ca, 'only-on-match', bool(nonempty_keys(lm, True) & set(ga.fact_keys_at(dels[0]))),
              'cancel/delete only when a match was found (len(%s) > 0)' % lm)
     ctx.inst('R3', ca, 'after-all-candidates', not any(n.id in {b.id for b in ga.loop_body_nodes(lp)} for n in [c[0] for c in cancels] + [dels[0]]),
@@ -217,6 +222,8 @@ def check(ctx):
              'a pattern exactly as long as the packet must still match (len(p) <= len(data)); length guards found %s' % lens)
     longer = [k for k in keys if k[0] in ('len(%s) < len(%s)' % (mv, lm), 'len(%s) < len(%s)' % (lm, mv))]
     okl = (('len(%s) < len(%s)' % (mv, lm), False) in keys) or (('len(%s) < len(%s)' % (lm, mv), True) in keys)
+    sk2 = [k for k in keys if any(mentions(k[0], v_) for v_ in shadow)]
+    ctx.need(okl or not sk2, '_check_for_answers: the longest-match test is phrased in new state %s (%s)' % (sorted(shadow), sk2))
     ctx.inst('R3', ca, 'keeps-longest', okl, 'the kept match must be the longest (len(match) >= / > len(longest)); guards %s' % longer)
     init_lm = [s for s in walk_own(ca.node) if isinstance(s, ast.Assign) and norm(s.targets[0]) == lm and norm(s.value) == '()']
     ctx.inst('R3', ca, 'starts-empty', len(init_lm) == 1, 'longest match starts as the empty tuple')
